@@ -7,6 +7,7 @@ import (
 	"encoding/json"
 	"fmt"
 	"os"
+	"time"
 
 	"verif/harness/mon"
 )
@@ -41,6 +42,9 @@ func main() {
 		a.Stride = 1
 	}
 	mon.Open()
+	if a.Engine != "hostile" {
+		mon.StartDeadlockWatch(a.Prop, a.Engine, 20*time.Second, func() { os.Exit(0) })
+	}
 	run(a)
 	mon.Done(a.Engine)
 	mon.Close()
